@@ -31,6 +31,7 @@ import (
 type histStep struct {
 	Status []int `json:"status"`
 	Before int   `json:"before,omitempty"` // exit status of the before hook in this run
+	Cond   int   `json:"cond,omitempty"`   // exit status of the condition in this run (the task is skipped in this run)
 }
 
 type histCase struct {
@@ -61,6 +62,9 @@ func (c histCase) stepCase(s histStep) TaskCase {
 	}
 	if c.Cond {
 		tc.Cond = "true"
+		if s.Cond != 0 {
+			tc.Cond = "false"
+		}
 	}
 	return tc
 }
@@ -88,7 +92,7 @@ func runHistory(c histCase) (kind, desc string) {
 		t.After = []string{"echo A"}
 	}
 	if c.Cond {
-		t.Condition = "echo K"
+		t.Condition = fmt.Sprintf("echo K; exit $(cat %s/k)", dir)
 	}
 	var buf bytes.Buffer
 	r, err := runner.NewTaskRunner()
@@ -101,14 +105,15 @@ func runHistory(c histCase) (kind, desc string) {
 			os.WriteFile(filepath.Join(dir, fmt.Sprintf("c%d", i+1)), []byte(fmt.Sprint(st)), 0o644)
 		}
 		os.WriteFile(filepath.Join(dir, "b"), []byte(fmt.Sprint(s.Before)), 0o644)
+		os.WriteFile(filepath.Join(dir, "k"), []byte(fmt.Sprint(s.Cond)), 0o644)
 		buf.Reset()
 		var runErr error
+		ran := t
 		if n > 0 && c.Copy {
 			tc := *t
-			runErr = r.Run(&tc)
-		} else {
-			runErr = r.Run(t)
+			ran = &tc
 		}
+		runErr = r.Run(ran)
 		var toks []string
 		for _, l := range strings.Split(buf.String(), "\n") {
 			if l != "" {
@@ -121,6 +126,18 @@ func runHistory(c histCase) (kind, desc string) {
 		}
 		if (runErr != nil) != e.Err {
 			return "error", fmt.Sprintf("run %d of the history: Run returned %v, a first run with these statuses reports error=%v", n+1, runErr, e.Err)
+		}
+		// the result fields of the task object that ran describe THIS run
+		if ran.Skipped != e.Skipped {
+			return "skipped", fmt.Sprintf("run %d of the history: Skipped=%v after the run, a first run with these statuses gives %v", n+1, ran.Skipped, e.Skipped)
+		}
+		if e.ExitCode != -2 {
+			if ran.Errored != e.Errored {
+				return "errored", fmt.Sprintf("run %d of the history: Errored=%v after the run, a first run with these statuses gives %v", n+1, ran.Errored, e.Errored)
+			}
+			if int(ran.ExitCode) != e.ExitCode {
+				return "exitcode", fmt.Sprintf("run %d of the history: ExitCode=%d after the run, a first run with these statuses gives %d", n+1, ran.ExitCode, e.ExitCode)
+			}
 		}
 	}
 	return "", ""
@@ -144,7 +161,7 @@ func historyUnit(res *common.Result, target string, kmax, lmax int) {
 			fmt.Fprintln(os.Stderr, d)
 			os.Exit(2)
 		}
-		if kind == "" || (target == "C07" && kind != "error") {
+		if kind == "" || (target == "C07" && kind != "error" && kind != "errored" && kind != "exitcode") || (target != "C07" && (kind == "errored" || kind == "exitcode")) {
 			return false
 		}
 		return res.AddViolation(common.Violation{Property: target, Key: fmt.Sprintf("%s:history-%s|%s", target, kind, c), Desc: c.String() + ": " + d, Config: c},
@@ -173,6 +190,17 @@ func historyUnit(res *common.Result, target string, kmax, lmax int) {
 								c := histCase{K: k, Variations: v, Allow: allow, Before: hooks&1 != 0, After: hooks&2 != 0, Cond: hooks == 3, Copy: cp, Steps: steps}
 								if do(c) {
 									return
+								}
+								if c.Cond && l == 2 { // the condition is not met in the first run only, and in the second run only
+									c.Steps = []histStep{{Status: steps[0].Status, Cond: 1}, steps[1]}
+									if do(c) {
+										return
+									}
+									c.Steps = []histStep{steps[0], {Status: steps[1].Status, Cond: 1}}
+									if do(c) {
+										return
+									}
+									c.Steps = steps
 								}
 								if c.Before && l == 2 { // the before hook fails in the first run only
 									c.Steps = []histStep{{Status: steps[0].Status, Before: 3}, steps[1]}
